@@ -65,6 +65,7 @@ type variant struct {
 	caseIdx int
 	partner *selOp // unbuffered rendezvous partner (nil otherwise)
 	pcase   int
+	racy    bool // default taken although a rendezvous partner is pending (it had not parked yet)
 }
 
 // parkedOps lists the pending channel operations of all other parked threads.
@@ -119,8 +120,28 @@ func (so *selOp) variants() int {
 	}
 	if len(so.vt) == 0 && so.hasDefault {
 		so.vt = append(so.vt, variant{caseIdx: -1})
+	} else if so.hasDefault {
+		// Every ready case is a rendezvous with a thread whose blocking operation is pending. The code
+		// between two synchronisation operations is atomic here, so such a thread counts as parked the
+		// moment its previous operation is done; a real goroutine may not have reached the channel
+		// yet, and a non-blocking operation then falls to default. That outcome is offered as one more
+		// alternative, at the price of a deviation.
+		onlyPartners := true
+		for _, v := range so.vt {
+			if v.partner == nil {
+				onlyPartners = false
+			}
+		}
+		if onlyPartners {
+			so.vt = append(so.vt, variant{caseIdx: -1, racy: true})
+		}
 	}
 	return len(so.vt)
+}
+
+// deviation reports whether variant v of the last variants() call is the racy default.
+func (so *selOp) deviation(v int) bool {
+	return !so.completed && v < len(so.vt) && so.vt[v].racy
 }
 
 func (so *selOp) apply(v int) {
@@ -194,7 +215,7 @@ func (e *Exec) runSel(so *selOp, kind Kind, obj *Obj) {
 	if obj == nil && len(so.cs) > 0 && so.cs[0] != nil {
 		obj = so.cs[0].obj
 	}
-	p := &Pend{Kind: kind, Obj: obj, Variants: so.variants, Apply: so.apply, sel: so}
+	p := &Pend{Kind: kind, Obj: obj, Variants: so.variants, Apply: so.apply, Deviation: so.deviation, sel: so}
 	p.pc = callerPC(3)
 	e.Do(p)
 	if so.sendPanic {
